@@ -513,6 +513,10 @@ func genSub(env genEnv, pool string, i int) *Sub {
 		s.Tree = r.Intn(env.NTrees)
 	}
 	t := genTree(env.TreeBase, s.Tree, env.NTrees)
+	if t.Twin {
+		// twin modules tick under one label: only the graph oracle knows how many runs that label owes
+		s.Kind = "graph"
+	}
 	s.Files = t.Files()
 	switch s.Kind {
 	case "hostile":
